@@ -30,6 +30,7 @@ STRATA = [
     ("knap-fill", 300, 6000),
     ("knap-large", 60, 1200),
     ("knap-approx", 400, 8000),
+    ("knap-fallback", 200, 3000),
     ("knap-tiny-values", 300, 5000),
     ("knap-huge-values", 300, 5000),
     ("bin-int", 500, 10000),
@@ -212,6 +213,23 @@ def gen(stratum, rng, tier):
         v = list(w) if style == "w" else [1] * n if style == "one" else [rng.randint(0, 50) for _ in range(n)]
         vp = p if style == "w" else 0
         return _knap_case(v, vp, w, p, cap)
+    if stratum == "knap-fallback":
+        # k items of weight C/k + a few 1e-4 (the truncating DP grid packs all k, the real weights do not fit): the solver
+        # has to fall back to its greedy pass - whose answer is a heuristic one whatever it looks like.  Around them a
+        # ratio-greedy trap: a 0.7C item with the best ratio and a 0.3C filler end exactly full, two 0.5C items are better
+        C = rng.choice([10, 20, 30, 50])
+        k = rng.choice([3, 3, 6, 7])
+        unit = 10 ** 4
+        third = C * unit // k + rng.randint(1, 9)
+        ra = rng.choice([22, 25, 30])           # value per weight unit, in tenths
+        w = [7 * C * unit // 10, 3 * C * unit // 10, 5 * C * unit // 10, 5 * C * unit // 10] + [third] * k
+        v10 = [ra * 7 * C // 10, 10 * 3 * C // 10, (ra - 1) * 5 * C // 10, (ra - 1) * 5 * C // 10] + [(ra - 1) * C // k + 1] * k  # all k together would beat the two halves
+        if rng.random() < 0.3:
+            w, v10 = w[2:] + w[:2], v10[2:] + v10[:2]
+        if rng.random() < 0.3:
+            w.append(rng.randint(1, C * unit))
+            v10.append(rng.randint(0, 30))
+        return _knap_case(v10, 1, w, 4, C * unit)
     if stratum == "knap-large":
         if rng.random() < 0.5:
             n = rng.randint(17, 40)
